@@ -255,6 +255,9 @@ RULE = ("small: every track of 2..3 (quick) / 2..4 (thorough) fixes on the latti
         "Non-trivial: the track has a consecutive duplicate, a revisited position, coincident ends or a collinear triple AND the "
         "output is strictly shorter than the input. Distinct = hash of the case.")
 
+# coverage-guided stage of the thorough tier (vt/fuzz.py): sub-check -> libFuzzer executions
+FUZZ = {'tracks': 15000}
+
 SUBCHECKS = [
     SubCheck("small", body_small, enum=enum_small, rule="all lattice tracks of <= 3/4 fixes x 2 algorithms x 6 tolerances",
              qshards=4, tshards=16),
